@@ -127,7 +127,10 @@ pub struct KnownFinding {
 }
 
 pub fn load_known_findings() -> Vec<KnownFinding> {
-    let path = Path::new(&verif_root()).join("known_findings.json");
+    // always the committed file, even when evidence/replays are redirected with VERIF_ROOT
+    let path = std::env::var("VERIF_KNOWN_FINDINGS")
+        .map(std::path::PathBuf::from)
+        .unwrap_or_else(|_| Path::new("/verif").join("known_findings.json"));
     let Ok(text) = std::fs::read_to_string(&path) else {
         return Vec::new();
     };
